@@ -1,0 +1,10 @@
+//go:build !verif
+// +build !verif
+
+// Package verifhook holds the verification seams used by the /verif model-checking
+// harness. Without the "verif" build tag every seam is an empty inlinable function.
+package verifhook
+
+func Persist(ev string) {}
+
+func SkipSeal() bool { return false }
